@@ -1,6 +1,6 @@
 #!/usr/bin/env python3
 """Regenerates /verif/MANIFEST.json from the per-property table below.
-A property is claimed iff its monitor package harness/props/<id> exists; everything else is listed
+A property is claimed iff it is listed in /verif/CLAIMED (and its monitor package exists); everything else is listed
 under not_applicable with the reason given here."""
 import json, os, subprocess
 
@@ -72,10 +72,11 @@ P = {
 def main():
     props = [json.loads(l) for l in open(os.path.join(ROOT, "properties.jsonl"))]
     checks, na = [], []
+    claimed = set(open(os.path.join(ROOT, "CLAIMED")).read().split())
     for p in props:
         pid = p["id"]
         level, ref, tech, text, note = P[pid]
-        if os.path.isdir(os.path.join(ROOT, "harness", "props", pid.lower())):
+        if pid in claimed and os.path.isdir(os.path.join(ROOT, "harness", "props", pid.lower())):
             checks.append({
                 "property_id": pid,
                 "quick_cmd": "./check %s quick" % pid,
